@@ -938,9 +938,41 @@ func (e *Exec) intrinsic(s *State, f *Frame, full string, fn *ssa.Function, args
 		setRes(args[0])
 		return true
 	case "math/bits.Mul64":
-		x, y := c.ZExt(args[0].(*Term), 128), c.ZExt(args[1].(*Term), 128)
-		p := c.Mul(x, y)
-		setRes(TupleV{c.Extract(p, 127, 64), c.Extract(p, 63, 0)})
+		// the 128-bit product is left unknown except for what the users in this code base need (no installed solver
+		// handles the 128-bit multiplier in time): a zero factor gives zero, and the high word is below either
+		// non-zero factor (proved in /verif/lemmas/div64.lean). An over-approximation of the exact product.
+		e.note("bits.Mul64: product abstracted to unknowns with hi < x and hi < y for non-zero factors, zero for a zero factor (lemmas/div64.lean, checked by lean on every run)")
+		x, y := args[0].(*Term), args[1].(*Term)
+		mhi, mlo := c.Fresh("mul64hi", SBV(64)), c.Fresh("mul64lo", SBV(64))
+		zero := BVConst(0, 64)
+		s.axiom(c.Implies(c.Or(c.Eq(x, zero), c.Eq(y, zero)), c.And(c.Eq(mhi, zero), c.Eq(mlo, zero))))
+		s.axiom(c.Implies(c.Not(c.Eq(x, zero)), c.ULt(mhi, x)))
+		s.axiom(c.Implies(c.Not(c.Eq(y, zero)), c.ULt(mhi, y)))
+		if e.mulPairs == nil {
+			e.mulPairs = map[string][2]*Term{}
+		}
+		e.mulPairs[mhi.S+"|"+mlo.S] = [2]*Term{x, y}
+		setRes(TupleV{mhi, mlo})
+		return true
+	case "math/bits.Div64":
+		// exact: (hi:lo) / y as a 128-bit division; panics when y == 0 or the quotient does not fit (y <= hi)
+		hi, lo, y := args[0].(*Term), args[1].(*Term), args[2].(*Term)
+		e.check(s, "div", c.And(c.Not(c.Eq(y, BVConst(0, 64))), c.ULt(hi, y)), pos, key)
+		if xy, ok := e.mulPairs[hi.S+"|"+lo.S]; ok {
+			// (hi:lo) is X*Y. The quotient is left unknown except for: X <= y ==> X*Y/y <= Y, and
+			// Y <= y ==> X*Y/y <= X (proved in /verif/lemmas/div64.lean; no installed solver derives them from the
+			// 128-bit definitions in time). An over-approximation: fewer facts than the exact quotient.
+			e.note("bits.Div64 of a bits.Mul64 product: quotient abstracted to an unknown bounded by the arithmetic lemma X <= y ==> X*Y/y <= Y (lemmas/div64.lean, checked by lean on every run)")
+			quo, rem := c.Fresh("div64q", SBV(64)), c.Fresh("div64r", SBV(64))
+			s.axiom(c.Implies(c.ULe(xy[0], y), c.ULe(quo, xy[1])))
+			s.axiom(c.Implies(c.ULe(xy[1], y), c.ULe(quo, xy[0])))
+			s.axiom(c.ULt(rem, y))
+			setRes(TupleV{quo, rem})
+			return true
+		}
+		n := c.Concat(hi, lo)
+		y128 := c.ZExt(y, 128)
+		setRes(TupleV{c.Extract(c.UDiv(n, y128), 63, 0), c.Extract(c.URem(n, y128), 63, 0)})
 		return true
 	case "math/bits.Add64":
 		x, y, ci := c.ZExt(args[0].(*Term), 65), c.ZExt(args[1].(*Term), 65), c.ZExt(args[2].(*Term), 65)
